@@ -358,6 +358,12 @@ def matrix_fill(cx, inst, body, canon, bases, rows, cols, value_forms, node):
             if isinstance(s, ast.For) and isinstance(s.target, ast.Name) and not s.orelse:
                 loops[s.target.id] = D(canon.visit(clone(s.iter)))
                 walk(s.body)
+            elif isinstance(s, ast.For) and isinstance(s.target, ast.Tuple) and len(s.target.elts) == 2 and all(isinstance(e, ast.Name) for e in s.target.elts) and not s.orelse \
+                    and isinstance(s.iter, ast.Call) and U(s.iter.func) in ("itertools.product", "product") and len(s.iter.args) == 2 and not s.iter.keywords:
+                # one loop over the Cartesian product of the two ranges: the nested loops in one statement
+                for e, rng in zip(s.target.elts, s.iter.args):
+                    loops[e.id] = D(canon.visit(clone(rng)))
+                walk(s.body)
             elif isinstance(s, ast.Assign) and len(s.targets) == 1 and isinstance(s.targets[0], ast.Subscript):
                 stores.append((canon.visit(clone(s.targets[0])), canon.visit(clone(s.value)), s))
             elif isinstance(s, ast.Return) and s.value is not None:
